@@ -105,7 +105,7 @@ def absQName (c : CST) : QN :=   -- body of `qname`
       | _ => ⟨none, b.flatten⟩
   | _ => ⟨none, c.flatten⟩
 
-def xmlnsS : Str := "xmlns".toList
+def xmlnsS : Str := ['x', 'm', 'l', 'n', 's']
 
 def absNsAttName (c : CST) : QN :=   -- body of `ns_att_name`
   match c.kidsL with
@@ -217,16 +217,16 @@ def absAttType (c : CST) : AttType :=   -- body of `att_type`
       | _ => .cdata)
   | _ =>
     let t := c.flatten
-    if startsWith "CDATA".toList t then .cdata else if startsWith "IDREFS".toList t then .idrefs
-    else if startsWith "IDREF".toList t then .idref else if startsWith "ID".toList t then .id
-    else if startsWith "ENTITIES".toList t then .entities else if startsWith "ENTITY".toList t then .entity
-    else if startsWith "NMTOKENS".toList t then .nmtokens else .nmtoken
+    if startsWith ['C', 'D', 'A', 'T', 'A'] t then .cdata else if startsWith ['I', 'D', 'R', 'E', 'F', 'S'] t then .idrefs
+    else if startsWith ['I', 'D', 'R', 'E', 'F'] t then .idref else if startsWith ['I', 'D'] t then .id
+    else if startsWith ['E', 'N', 'T', 'I', 'T', 'I', 'E', 'S'] t then .entities else if startsWith ['E', 'N', 'T', 'I', 'T', 'Y'] t then .entity
+    else if startsWith ['N', 'M', 'T', 'O', 'K', 'E', 'N', 'S'] t then .nmtokens else .nmtoken
 
 def absDefault (c : CST) : AttDefault :=   -- body of `default_decl`
   let t := c.flatten
-  if startsWith "#REQUIRED".toList t then .required
-  else if startsWith "#IMPLIED".toList t then .implied
-  else .value (startsWith "#FIXED".toList t)
+  if startsWith ['#', 'R', 'E', 'Q', 'U', 'I', 'R', 'E', 'D'] t then .required
+  else if startsWith ['#', 'I', 'M', 'P', 'L', 'I', 'E', 'D'] t then .implied
+  else .value (startsWith ['#', 'F', 'I', 'X', 'E', 'D'] t)
     (match findL N.att_value c.kidsL with | some v => absPieces v | none => [])
 
 def absAttDef (c : CST) : AttDef :=   -- body of `att_def`
@@ -349,7 +349,7 @@ def absDocument (c : CST) : Except XErr IDoc :=   -- body of `document`
   let encoding := xd.bind fun x => (findL N.encoding_decl x.kidsL).bind fun v =>
     (findL N.enc_name v.kidsL).map (·.flatten)
   let standalone := xd.bind fun x => (findL N.sd_decl x.kidsL).map fun v =>
-    hasSub "yes".toList v.flatten
+    hasSub ['y', 'e', 's'] v.flatten
   match absProlog prolog with
   | .error e => .error e
   | .ok heads =>
